@@ -13,7 +13,7 @@ CTX = [(0x00, 0), (0x00, 1), (0x08, 0), (0x08, 1), (0x04, 0), (0x04, 1)]     # (
 
 def plan(tier):
     shards = []
-    cap = 10 if tier == "quick" else 16
+    cap = 10 if tier == "quick" else 12
     for blk in range(16):
         shards.append(("t16", blk))
     ctxs = CTX[:4] if tier == "quick" else CTX
